@@ -734,6 +734,18 @@ class IntegratePlanar:
         Computes the integral for a bezier curve of given control points
         """
         assert isinstance(curve, PlanarCurve)
+        if nnodes is None and curve.degree > 1 and center in curve.box():
+            # The chords subtend the same angle as the curve only when
+            # the center is outside the control polygon: halve the curve
+            box = curve.box()
+            size = max(
+                box.toppt[0] - box.lowpt[0], box.toppt[1] - box.lowpt[1]
+            )
+            if size > 1e-6:
+                total = 0
+                for half in curve.split((Fraction(1, 2),)):
+                    total += IntegratePlanar.winding_number(half, center)
+                return total
         nnodes = curve.npts if nnodes is None else nnodes
         nodes = Math.closed_linspace(nnodes)
         total = 0
